@@ -123,12 +123,13 @@ inline unsigned buildFamily(const StepGraphSpec &s, std::vector<std::pair<unsign
         break;
     }
     case 14: { // m disjoint routes of different edge counts from the source to a junction, then a long tail behind it
-        unsigned mroutes = 2 + (unsigned)(s.p1 % 6), tail = 5 + (unsigned)(s.p2 % 60);
+        unsigned mroutes = 2 + (unsigned)(s.p1 % 11), tail = 5 + (unsigned)(s.p2 % 120);
         unsigned next = 1;
         std::vector<unsigned> ends;
-        for (unsigned i = 0; i < mroutes; ++i) { // route i has i inner vertices
+        const unsigned shortest = (s.p1 / 11) % 3; // 0: one route is the direct edge; otherwise every route has inner vertices
+        for (unsigned i = 0; i < mroutes; ++i) { // route i has shortest + i inner vertices
             unsigned prev = 0;
-            for (unsigned k = 0; k < i; ++k) { es.emplace_back(prev, next); prev = next++; }
+            for (unsigned k = 0; k < shortest + i; ++k) { es.emplace_back(prev, next); prev = next++; }
             ends.push_back(prev);
         }
         const unsigned J = next++;
